@@ -137,3 +137,12 @@ func (vfs *BasePathFS) OSType() avfs.OSType {
 func (*BasePathFS) Type() string {
 	return "BasePathFS"
 }
+
+// errRoot returns the error of an attempt to remove or rename the root directory.
+func (vfs *BasePathFS) errRoot() error {
+	if vfs.OSType() == avfs.OsWindows {
+		return avfs.ErrWinAccessDenied
+	}
+
+	return avfs.ErrInvalidArgument
+}
